@@ -141,6 +141,33 @@ def r05_7(ck: Check) -> None:
         ck.ok("R05.7", construct, "slice start from the next 4 bytes", fi.loc)
     else:
         ck.violated("R05.7", construct, "start is %s" % (show(st) if st is not None else "not found"), fi.loc)
+    from .common import loop_updates
+    head, ups, fi2 = loop_updates(ck, "skepticoin.pow.select_block_slice", 0)
+    spl = Spec(ck.summ(fi2.qualname, 0), ("hsh", "ser", "n"), extra={"result": ("lv", "result", 0), "start": ("lv", "start", 0)})
+    want_head = spl.term("len(result) < n")
+    want_res = spl.term("result + ser[start:start + n - len(result)]")
+    construct = "pow.select_block_slice: while len(result) < length: result += block[start : start + length - len(result)]; start = 0 (wrap-around)"
+    names = sorted(ups)
+    if len(names) == 2 and head is not None:
+        # canonicalise the two carried names by role: the one reset to 0 is `start`
+        zero = [n for n in names if ups[n] == ("c", 0)]
+        other = [n for n in names if n not in zero]
+        def ren(t):  # type: ignore
+            if isinstance(t, tuple):
+                if t[:2] == ("lv", zero[0] if zero else "?"):
+                    return ("lv", "start", 0)
+                if t[:2] == ("lv", other[0] if other else "?"):
+                    return ("lv", "result", 0)
+                return tuple(ren(x) for x in t)
+            return t
+        okl = len(zero) == 1 and len(other) == 1 and ren(head) == want_head and ren(ups[other[0]]) == want_res
+    else:
+        okl = False
+    rets_s = ck.summ(fi2.qualname, 0).returns()
+    if okl and len(rets_s) == 1 and rets_s[0].term[0] == "lv":
+        ck.ok("R05.7", construct, "", fi2.loc)
+    else:
+        ck.violated("R05.7", construct, "loop is: while %s: %s" % (show(head) if head is not None else "?", {k: show(v)[:80] for k, v in ups.items()}), fi2.loc)
     s = ck.summ("skepticoin.pow.select_slice_from_chain", 0)
     require_return(ck, "R05.7", s, Spec(s, ("hsh", "h", "get", "n")),
                    "select_block_slice(hsh, get(select_block_height(hsh, h)).serialize(), n)", "slice of the serialized selected ancestor")
